@@ -952,23 +952,29 @@ def noisy_scenario(rng, name):
     ids = rng.sample([1, 2, 5, 7], 2)
     scripts = {cid: client_script(rng, cid, cfg, mods) for cid in ids}
     ops = render_schedule(rng, scripts)
-    for _ in range(rng.randint(1, 4)):
-        pos = rng.randint(0, len(ops))
+    # where the noise goes is drawn first; the texts are made in history order because an unparsable
+    # typed value leaves in force whatever the *previous* reload established
+    spots = sorted(rng.randint(0, len(ops)) for _ in range(rng.randint(1, 4)))
+    eff = cfg.timeout
+    made = []
+    for pos in spots:
         r = rng.random()
         if r < 0.4:
-            ops.insert(pos, "reload %s bad=1" % hx(rng.choice(BROKEN_CONFS)))
+            made.append((pos, "reload %s bad=1" % hx(rng.choice(BROKEN_CONFS))))
         elif r < 0.6:
-            ops.insert(pos, inl("-1 ? " + rng.choice(["bogus", ":what now", "STATS"])))
+            made.append((pos, inl("-1 ? " + rng.choice(["bogus", ":what now", "STATS"]))))
         elif r < 0.8:
-            bad = Cfg(timeout=cfg.timeout, services=cfg.services, rules=cfg.rules, logs=cfg.logs)
+            bad = Cfg(timeout=eff, services=cfg.services, rules=cfg.rules, logs=cfg.logs)
             val = rng.choice(["soon", "1x", "\"\""])
-            txt = bad.text().replace("timeout %d;" % cfg.timeout, "timeout %s;" % val)
+            txt = bad.text().replace("timeout %d;" % eff, "timeout %s;" % val)
             if val == "\"\"":
                 # the empty text is a valid interval (no components: 0 seconds), not an unparsable one
-                bad.timeout = 0
-            ops.insert(pos, "reload %s %s" % (hx(txt), bad.fields()))
+                bad.timeout = eff = 0
+            made.append((pos, "reload %s %s" % (hx(txt), bad.fields())))
         else:
-            ops.insert(pos, inl(rng.choice(MALFORMED)))
+            made.append((pos, inl(rng.choice(MALFORMED))))
+    for pos, line in reversed(made):
+        ops.insert(pos, line)
     return Case(name, header(mods, cfg) + ops + ["eof"], tags={"mods": mods})
 
 
